@@ -75,7 +75,8 @@ CLAIMED["C12"] = dict(
          " A relaunch starts from reset per-execution fields; the repeating engine's single restart respects maxRestarts; every caller of _restartComponent gives a final state for every refusal code."
          " The subject that Engine.__init__ subscribes the kill-before-run handler to is re-created only when the engine is dead; the restart hook's call is enclosed by handlers for Exception and SystemExit; the repeating engine's restart also needs the reason to be listed in restartHookOn."
          " The reason handed to component.restart() in the post-mortem path is the exit reason the controller's guards tested, never a substituted constant."
-         " The relaunch is gated by a test of the shutdown flag that follows the restart hook.",
+         " The relaunch is gated by a test of the shutdown flag that follows the restart hook."
+         " The resubmission-cap test is recognised in every equivalent spelling; only its boundary is reported.",
     technique="CFG edge-dominance, reaching definitions, value-class product reachability, linear comparison "
               "normalisation, who-may-write",
     design="3/C12")
@@ -93,7 +94,8 @@ CLAIMED["C13"] = dict(
          " The cutoff of the new-output test is the recorded launch time of the previous execution (or a min including it); 'no retries left' holds for every non-positive counter."
          " The producers-finished stream is built from the producer components' notifyFinished (not the engines'); the flag is snapshotted before the new-output test of the pass. Two observed known findings are listed."
          " Inside canConsume no test of producer output is reachable after a store of a non-False value into the sticky flag."
-         " Every failure of the task generator reaches the decision block; the cutoff of the new-output test is recorded only once a launch succeeded.",
+         " Every failure of the task generator reaches the decision block; the cutoff of the new-output test is recorded only once a launch succeeded."
+         " The kill-delay timer is armed whenever a delay is configured and the engine is alive.",
     technique="CFG edge-dominance and must-pass-through, path-consistent product reachability over stable flags, "
               "reaching definitions of the snapshot, who-may-write",
     design="3/C13")
@@ -110,7 +112,8 @@ CLAIMED["C03"] = dict(
          "Equality of the expanded dataflow with an independent expansion is not decided."
          " Every reference to a replicated producer is registered for rewriting (no other condition gates the registration)."
          " The reference translation of a copy covers the whole component including its platform override; the path repeated after an aggregated reference accepts every name character (decided on the parsed pattern)."
-         " A local memo in the replication functions is keyed by every argument that varies between iterations.",
+         " A local memo in the replication functions is keyed by every argument that varies between iterations."
+         " The reference printer prints the file / method parts as given.",
     technique="substitution-site lint with pattern-shape analysis (SUB), format-string agreement, CFG edge-dominance",
     design="3/C03")
 CLAIMED["C05"] = dict(
@@ -124,7 +127,8 @@ CLAIMED["C05"] = dict(
          " The rewritten loop binding is re-assembled from stage, producer, file and method of the original one."
          " Every occurrence of a reference is rewritten (no count limit at the substitution sites); a skipped placeholder has consumed its instances first. Two reproduced limitations of loop bindings (replicated looped producer, loop-to-loop binding) are listed as observed known findings."
          " On a restart only the placeholders of stages strictly before the starting stage are frozen."
-         " A pattern for the '<iteration>#' prefix admits every decimal number.",
+         " A pattern for the '<iteration>#' prefix admits every decimal number."
+         " The placeholder table is updated in place, never rebound outside __init__.",
     technique="sibling cross-check lint over sort keys, format/parser agreement, CFG edge-dominance, SUB, "
               "reaching-definition alias analysis (who-may-write)",
     design="3/C05")
@@ -138,7 +142,8 @@ CLAIMED["C10"] = dict(
          ":output value returned is, on every path, read from the file in that call. The four str.replace sites that violated it were a genuine, reproduced defect and were repaired."
          " The registered value is assigned afresh on every path of the iteration; a relative spelling is registered only for the reference that owns it (decided order-independently before the loop) and next to the absolute one; the final fill-in over inserted values is a recorded known finding."
          " The table that decides who owns a relative spelling is order-independent in both of its forms (min with a key of the reference alone; incremental with a guard decided on its truth table)."
-         " At most one substitution of the argument string lies on any path.",
+         " At most one substitution of the argument string lies on any path."
+         " The file behind an output reference is read as bytes.",
     technique="substitution-site lint with pattern-shape analysis (SUB), local def-use of replacement values, CFG edge-dominance, "
               "non-local effect analysis (STATE), reaching definitions",
     design="3/C10")
@@ -151,7 +156,8 @@ CLAIMED["C19"] = dict(
          " The option tables are static (accessors stateless and fresh, no in-place mutation); writer converters change the case of boolean constants only; the parser neither interpolates nor validates '%'."
          " Optional [Output] keys are written only when not None; the writer emits one stage file per index because the reader requires 0..N-1."
          " A handler's default replaces only a value whose own look-up failed (no raising statement follows the look-up in the try body); optional [Status] keys are written only when not None."
-         " The section-name prefix is taken off with a slice of its length.",
+         " The section-name prefix is taken off with a slice of its length."
+         " Stale stage files are found by listing the directory, as the reader does.",
     technique="writer/reader table extraction from dict/lambda literals and an if/elif chain, set comparison",
     design="3/C19")
 
@@ -164,7 +170,8 @@ CLAIMED["C14"] = dict(
          "point and fidelity of unescaped fields are not decided. Four genuine defects were repaired by fix: commits."
          " On reload the value of an escaped key is not normalised (strip/lower), and the listing output.json is derived from is parsed without %-interpolation."
          " No handler nested inside the write block swallows an I/O error around the writes."
-         " The temporary path is never the destination on any arm of its definition and the rename is reached on every normal path; the derived listing is read through an open handle.",
+         " The temporary path is never the destination on any arm of its definition and the rename is reached on every normal path; the derived listing is read through an open handle."
+         " A skip-if-unchanged snapshot is recorded only after every rename of the writer.",
     technique="write-open/rename pairing on the CFG (temp-then-rename, rename-on-success-only), purity lint of "
               "serialisers, codec table agreement",
     design="3/C14")
@@ -180,7 +187,8 @@ CLAIMED["C15"] = dict(
          " A loop that re-keys a mapping under a normalised key iterates in sorted order."
          " No function of the load path writes into a module-level list/dict/set."
          " A search loop over a mapping view returns one verdict; re-keying under a function of the key (also through pop) iterates in sorted order; the order-taint scope includes dosini.py."
-         " Dictionary comprehensions over unordered collections are order-taint sinks; the load's entry point does not write into its arguments.",
+         " Dictionary comprehensions over unordered collections are order-taint sinks; the load's entry point does not write into its arguments."
+         " Dictionary-comprehension de-duplication is keep-first; re-keying into another mapping under a computed key iterates in sorted order.",
     technique="intra-procedural order-taint (set-typedness inference + sink classification) with a frozen exemption table",
     design="3/C15")
 
@@ -196,7 +204,8 @@ CLAIMED["C04"] = dict(
          "of layers; value equality with an independent resolver is not decided."
          " The flattening used by non-primitive loads lets the same scope win as the live resolver for every definition pattern; its early substitution inside the global/stage layers is a recorded known finding (three constructs)."
          " The requested platform is passed on at every call between platform-parametrised methods of FlowIRConcrete."
-         " Mode flags reach the children of a recursive resolver unchanged; every variable scope gets its own dictionary at load; the blueprint layers are folded unconditionally.",
+         " Mode flags reach the children of a recursive resolver unchanged; every variable scope gets its own dictionary at load; the blueprint layers are folded unconditionally."
+         " No depth counter cuts chains of defined variables; a looked-up value is returned, not dropped.",
     technique="statement-order and CFG analysis of the resolver, handler swallow-path analysis, schema/converter "
               "table agreement",
     design="3/C04")
@@ -241,7 +250,8 @@ CLAIMED["C16"] = dict(
          "over all pairs of definitions is not decided."
          " The hashed executable is the component's own (blueprint chosen by existence, never by the spelling of the name) after variable substitution."
          " Both spellings of a reference are replaced by the content hash; a None hash is not post-processed; the serialisation must delimit its pieces (fails on the current tree: known finding C16.R11, unseparated concatenation)."
-         " The 'files' ingredient keeps one entry per consumed file (no set de-duplication).",
+         " The 'files' ingredient keeps one entry per consumed file (no set de-duplication)."
+         " Every producer of the component gets an entry in the producer -> hash table.",
     technique="backward data slice for non-interference, CFG specialisation, finite truth table, SUB, table checks",
     design="3/C16")
 
@@ -255,7 +265,8 @@ CLAIMED["C17"] = dict(
          "platform-over-default layering and lower-casing agreement of readers/writers. Holds for every launch "
          "environment; the resulting dictionary for a concrete combination is not computed."
          " FlowIRConcrete.instance layers platform over default environments per variable; the launch lookup may only follow an own-variable expansion iterated to a fixpoint (fails on the current tree: known finding C17.R5, chained references)."
-         " The environment name is dispatched with exact comparisons only.",
+         " The environment name is dispatched with exact comparisons only."
+         " A missing launch variable skips only its own name in the import loop.",
     technique="who-may-read classification of os.environ uses, CFG branch-table and handler swallow-path analysis",
     design="3/C17")
 
@@ -273,7 +284,8 @@ CLAIMED["C07"] = dict(
          " Folder discovery on reload follows the symbolic links that deployment creates."
          " No function of the load path writes into a module-level memo (the loader parses the stored file on every load); default injection tests the key it sets."
          " The user's variables are re-applied to the stage variables of every platform of the description (shared with C04.R4)."
-         " The stored components carry the blueprint layers (folded on every path of the resolver).",
+         " The stored components carry the blueprint layers (folded on every path of the resolver)."
+         " The replica counts are read from the flattened description that is replicated and stored.",
     technique="writer/schema key-set agreement, CFG edge-dominance and statement-order (must-pass-through) checks, "
               "abstract interpretation of dict layering over a finite membership domain (sibling agreement)",
     design="3/C07")
@@ -291,7 +303,8 @@ CLAIMED["C11"] = dict(
          " The merge hands every key of the component document to the closed-schema check (novel keys are copied whatever their value)."
          " The class-level tables that decide whether a name is a folder or a component are never mutated in place (shared with C09)."
          " A failed type conversion is swallowed only under ignore_convert_errors or under a test implying a non-empty list of unresolved variables; the inverted guard of FlowIR.validate's per-component validation is a rule-decided known finding."
-         " No component leaves an iteration of the validation loop before it was resolved.",
+         " No component leaves an iteration of the validation loop before it was resolved."
+         " The conversion step is not given floats (int(2.5) would repair a mistyped value).",
     technique="explicit-raise escape analysis over a name-resolved call graph, call-graph reachability of detectors, "
               "table agreement, CFG must-pass-through",
     design="3/C11")
@@ -309,7 +322,8 @@ CLAIMED["C06"] = dict(
          "accepted by the FlowIR validator need execution and are not decided."
          " The cycle detector's view of the open scopes is maintained symmetrically by enter()/exit(); match objects are tested before use; no while loop of the compiler has a cycle on which nothing changes; split() accepts full prefixes only."
          " A typed parameter value is returned only for a whole-string reference; the first element of a possibly empty schema list is read only behind an emptiness test."
-         " Run-time text inside a regular expression of dsl.py is escaped.",
+         " Run-time text inside a regular expression of dsl.py is escaped."
+         " The user's variables are layered last over the entrypoint's arguments; work lists that follow references between scopes keep a visited set.",
     technique="explicit-raise escape analysis over a name-resolved call graph, error-collection lint, SUB, naming-loop "
               "uniqueness check",
     design="3/C06")
@@ -328,7 +342,8 @@ CLAIMED["C20"] = dict(
          "positional weight list is filled in stage order."
          " Every write of the set the stage selectors read is under the lock; a malformed weight is replaced in the status report too; the loader maps the keys of the status report to stage indices as the status monitor does."
          " A key-less sorted() counts as stage order only over numeric indices; the replacement writes are preceded by a loop that gives every stage its own dictionary."
-         " A stage without a weight has one written into the report (both normalisation sites read the same report).",
+         " A stage without a weight has one written into the report (both normalisation sites read the same report)."
+         " Both stage selections test the activity of graph nodes; OverflowError and non-dictionary status entries count as missing weights.",
     technique="guard-existence and edge-dominance on the CFG, symbolic shape of the replacement numerators, constant agreement, "
               "sibling cross-check of the two normalisation sites",
     design="3/C20")
